@@ -168,11 +168,12 @@ fn title_text() -> BoxedStrategy<String> {
         3 => g::sel_str(&["a", "an", "the", "of", "in", "on", "and", "but", "for", "or", "nor", "to", "at", "by", "from", "with", "over", "into", "about", "THE", "Of", "AND"]),
         3 => proper(),
         2 => g::word_like(),
+        2 => g::sel_str(&["os", "ss", "ms", "us", "1s", "0s", "A's", "ps", "x.com", "t.co", "et al.", "e.g.", "vs."]),
         2 => g::sel_str(&["élan", "über", "ßeta", "øre", "émigré", "ñandú", "ångström", "αβγ", "это", "ǆ", "ﬂow"]),
         1 => g::sel_str(&["ﬁsh", "İstanbul", "ıslak", "ǆ", "straße", "éclair", "😀", "o’clock", "rock-and-roll", "state-of-the-art", "3rd", "iPhone", "e.g.", "U.S.", "don’t", "it's"]),
     ];
     prop_oneof![
-        6 => proptest::collection::vec((word, g::sel_str(&[" ", " ", " ", ", ", "-", ": ", " — ", "  "])), 1..9)
+        6 => proptest::collection::vec((word, g::sel_str(&[" ", " ", " ", ", ", "-", ": ", " — ", "  ", ".", ". ", "'"])), 1..9)
             .prop_map(|v| {
                 let n = v.len();
                 v.into_iter().enumerate().map(|(i, (w, s))| if i + 1 < n { w + &s } else { w }).collect::<String>()
